@@ -97,6 +97,9 @@ type Env struct {
 	siteCount map[string]int
 	mainGID   uint64
 	inHook    bool
+	// WrapClient, if set, wraps the replica client handed to litestream (CONC:
+	// scheduling points before and after every remote call)
+	WrapClient func(litestream.ReplicaClient) litestream.ReplicaClient
 	opCancel  context.CancelFunc
 	// local staging fault armed by the harness step stage_fail ("open", "write", "sync")
 	stageFault    string
@@ -501,7 +504,11 @@ func (e *Env) newDB() (*litestream.DB, *file.ReplicaClient) {
 	db.MaxSyncWALBytes = cfg.MaxSyncWALBytes
 	client := file.NewReplicaClient(e.RepDir)
 	e.FS.Inner = client
-	r := litestream.NewReplicaWithClient(db, e.FS)
+	var rc litestream.ReplicaClient = e.FS
+	if e.WrapClient != nil {
+		rc = e.WrapClient(rc)
+	}
+	r := litestream.NewReplicaWithClient(db, rc)
 	client.Replica = r
 	r.MonitorEnabled = false
 	r.MaxSyncLTXFiles = cfg.MaxSyncLTXFiles
